@@ -4,6 +4,8 @@ import json, sys, os
 V = os.path.dirname(os.path.dirname(os.path.dirname(os.path.abspath(__file__))))
 pid = sys.argv[1]; prefixes = sys.argv[2:]
 ev = json.load(open(os.path.join(V, 'evidence', pid + '.json')))
+if ev['coverage'].get('repo_path', '/repo') != '/repo':
+    sys.exit('refusing: evidence/%s.json comes from a run against %s, not /repo' % (pid, ev['coverage'].get('repo_path')))
 kf = json.load(open(os.path.join(V, 'known_findings.json')))
 have = {(e['property'], e['key']) for e in kf['findings']}
 n = 0
